@@ -1,0 +1,77 @@
+//go:build verif
+
+package restful
+
+// Contracts for the govc verification-condition generator (see /verif/DESIGN.md).
+// This file contains comments only; it is compiled only with -tags verif and
+// then contributes nothing to the package.
+
+// ---------------------------------------------------------------------------
+// custom verbs: assumed meaning of the two regular expressions (A-VERB)
+
+//@ func hasCustomVerb
+//@ props C01 C02 C03 C04
+//@ trusted A-VERB: customVerbReg matches iff the token ends in ':' + letters (validated in the thorough tier)
+//@ ensures result == hasVerb(routeToken)
+//@ nopanic
+
+//@ func isMatchCustomVerb
+//@ props C01 C02 C03 C04
+//@ trusted A-VERB
+//@ ensures result == (hasVerb(routeToken) && strings.HasSuffix(pathToken, ":"+verbOf(routeToken)))
+//@ ensures result ==> hasVerb(pathToken) && stemOf(pathToken) == pathToken[:len(pathToken)-len(verbOf(routeToken))-1]
+//@ nopanic
+
+//@ func removeCustomVerb
+//@ props C01 C02 C03 C04
+//@ trusted A-VERB
+//@ ensures hasVerb(str) ==> result == stemOf(str)
+//@ ensures !hasVerb(str) ==> result == str
+//@ nopanic
+
+// ---------------------------------------------------------------------------
+// CurlyRouter
+
+//@ func (CurlyRouter).matchesRouteByPathTokens
+//@ props C01 C02 C03 C18
+//@ requires wf: wfTemplate(routeTokens, routeHasCustomVerb)
+//@ ensures iff: matches == pathAdmits(routeTokens, requestTokens, routeHasCustomVerb)
+//@ ensures static: matches ==> staticCount == countStatic(routeTokens, len(routeTokens), routeHasCustomVerb)
+//@ ensures param: matches ==> paramCount == countParams(routeTokens, len(routeTokens), routeHasCustomVerb)
+//@ ensures zero: !matches ==> paramCount == 0 && staticCount == 0
+//@ nopanic
+//@ modifies nothing
+//@ loop 0 invariant bound: it_i <= len(requestTokens)
+//@ loop 0 invariant admitted: forall(0, it_i, func(k int) bool { return tokAdmits(routeTokens[k], requestTokens[k], routeHasCustomVerb) && !isTailTok(effTok(routeTokens[k], routeHasCustomVerb)) })
+//@ loop 0 invariant counts: staticCount == countStatic(routeTokens, it_i, routeHasCustomVerb) && paramCount == countParams(routeTokens, it_i, routeHasCustomVerb)
+
+//@ func (CurlyRouter).regularMatchesPathToken
+//@ props C01 C02 C03 C18
+//@ requires var: isVarTok(routeToken)
+//@ requires colon: colon == strings.Index(routeToken, ":") && colon >= 0 && len(routeToken) >= colon+2
+//@ requires closed: strings.HasSuffix(routeToken, "}")
+//@ ensures token: matchesToken == tokAdmits0(routeToken, requestToken)
+//@ ensures tail: matchesRemainder == isTailTok(routeToken)
+//@ nopanic
+//@ modifies nothing
+
+//@ func (CurlyRouter).computeWebserviceScore
+//@ props C02 C03
+//@ nopanic
+//@ loop 0 invariant 0 <= i
+
+//@ func untokenizePath
+//@ props C04
+//@ requires 0 <= offset
+//@ nopanic
+//@ loop 0 invariant p >= offset
+
+// ---------------------------------------------------------------------------
+// package-level invariants (assumed at entry of every function, proved for
+// every function that writes a package variable)
+
+//@ global invariant tracelogger: trace ==> traceLogger != nil
+
+// A-VERB, stated about the spec functions themselves: a token that ends in a
+// custom verb ends in a letter.
+//@ axiom verb-not-brace: forallStr(func(t string) bool { return hasVerb(t) ==> !strings.HasSuffix(t, "}") })
